@@ -22,7 +22,7 @@ def jobs(tier):
       Job("code-k4-exc", M, "h_code", dict(C16_KOPS=4, C16_NEXC=1, C16_GAPS=1), shards=509, timeout=t,
           note="inline caches after every other instruction only"),
       Job("code-k3-2exc", M, "h_code", dict(C16_KOPS=3, C16_NEXC=2), shards=127, timeout=t),
-      Job("real-programs", M, "h_real", dict(C16_NSTMT=14, C16_NWRAP=6), shards=251, timeout=t),
+      Job("real-programs", M, "h_real", dict(C16_NSTMT=22, C16_NWRAP=6), shards=251, timeout=t),
   ]
 
 
@@ -47,7 +47,7 @@ def meta(tier):
           "consecutive instructions whose id is their first index; no instruction in two blocks; every target of a "
           "reachable jump starts a block; the order starts at the entry, lists no block twice, lists every block "
           "reachable at INSTRUCTION level from the entry, and places a predecessor before every non-entry block. "
-          "real-programs: function bodies generated from selectors (two statements out of 14 kinds incl. return/raise/"
+          "real-programs: function bodies generated from selectors (two statements out of 22 kinds incl. yield/del/assert/match/nested def/lambda/for-else and return/raise/"
           "continue/break/if/for/while/with/comprehension, one of 6 wrappers incl. try/except, try/finally, "
           "try/except/else/finally, with, nested try; optionally inside a loop) are compiled by CPython (set-up, "
           "untraced) and every code object goes through the same real functions and the same block-graph checks plus "
